@@ -192,18 +192,34 @@ Definition edges_cross (st : state2) : bool :=
   let es := flat_map (fun e => match ends_of st e with Some pq => [pq] | None => [] end) (ids_of st PEdge (mesh_darts st)) in
   existsb (fun e1 => existsb (fun e2 => proper_cross (fst e1) (snd e1) (fst e2) (snd e2)) es) es.
 
+(** two different edges of the result join the same two points (exact test): what a chord gives when the two crossings
+    it joins lie on the same grid line -- it then runs along that line, on top of the grid edges *)
+Definition pt_eq (p q : pt) : bool := dy_eqb (fst p) (fst q) && dy_eqb (snd p) (snd q).
+Fixpoint has_double (es : list (pt * pt)) : bool :=
+  match es with
+  | [] => false
+  | e :: r => existsb (fun e2 => (pt_eq (fst e) (fst e2) && pt_eq (snd e) (snd e2)) || (pt_eq (fst e) (snd e2) && pt_eq (snd e) (fst e2))) r
+              || has_double r
+  end.
+Definition double_edge (st : state2) : bool :=
+  has_double (flat_map (fun e => match ends_of st e with Some pq => [pq] | None => [] end) (ids_of st PEdge (mesh_darts st))).
+
 (* classes: 1 refused or crashed on a valid boundary, 2 ill-formed / not embedded / open face,
    3 negatively oriented face, 4 faces do not tile the grid rectangle, 5 a point of interest is not a vertex,
    6 a crossing with a grid line is not a vertex, 7 kept area differs from the area of the kept side,
    8 mis-oriented boundary accepted, 9 an input segment is not covered by free boundary edges,
    10 C16:loop-inside-one-cell-dropped (the missing points of interest belong to loops that cross no grid line),
-   18 C16:dropped-corner-chords-cross (negative face, some corner is not a point of interest, two edges of the result cross) *)
+   18 C16:dropped-corner-chords-cross (negative face, some corner is not a point of interest, two edges of the result cross),
+   20 C16:dropped-corner-chord-on-grid-line (negative face, some corner is not a point of interest, no crossing, two
+      different edges of the result join the same two points) *)
 Definition check16 (g : ginput) (st : state2) : N :=
   if negb (wf2b (nd st) (mem st) && fully_embedded st && all_closed st) then 2 else
   if existsb (fun a => (dy_sgn a <? 0)%Z) (face_area2s st) then
     (* known finding: corners that are not points of interest are cut off by straight chords between grid
        crossings; around a feature thinner than a cell two such chords can cross each other *)
-    (if negb (Nat.eqb (length (g_poi g)) (length (g_pts g))) && edges_cross st then 18 else 3) else
+    (if negb (Nat.eqb (length (g_poi g)) (length (g_pts g))) then
+       (if edges_cross st then 18 else if double_edge st then 20 else 3)
+     else 3) else
   let ps := out_pts st in
   let minx := fold_pts dy_min fst ps in let maxx := fold_pts dy_max fst ps in
   let miny := fold_pts dy_min snd ps in let maxy := fold_pts dy_max snd ps in
